@@ -427,7 +427,8 @@ class SockRunner:
             cur = net.current()
             if cur is not None:
                 proto = cur.transport.get_protocol()
-                (proto.pause_writing if on else proto.resume_writing)()
+                if bool(getattr(proto, "_paused", False)) != on:
+                    (proto.pause_writing if on else proto.resume_writing)()
             net.on_open = (lambda conn: conn.transport.get_protocol().pause_writing()) if on else None
         else:
             raise ValueError(st)
